@@ -329,8 +329,9 @@ type failRec struct {
 }
 
 type evaluator struct {
-	w     *world
-	fails []failRec
+	w       *world
+	fails   []failRec
+	touched map[string]bool // datum keys whose resolver the evaluation needs (when non-nil)
 }
 
 // flatten collects the selections of a set in order, descending into
@@ -405,6 +406,9 @@ func (e *evaluator) field(typ string, id int64, s *qsel, merged []*qsel, unionSe
 			failID = s.argV
 		}
 	}
+	if e.touched != nil && s.name != "id" && s.name != "name" && s.name != "val" && logical != "Query.n" {
+		e.touched[fmt.Sprintf("%s/%d", logical, failID)] = true
+	}
 	if f, ok := w.fail[fmt.Sprintf("%s/%d", logical, failID)]; ok {
 		e.fails = append(e.fails, failRec{path: p, field: logical, id: failID, f: f})
 		return nil
@@ -468,9 +472,9 @@ func (e *evaluator) field(typ string, id int64, s *qsel, merged []*qsel, unionSe
 	case "A.name":
 		return w.as[id-100].Name
 	case "A.tag":
-		return tagVal(id, s.argV)
+		return w.tagVal(id, s.argV)
 	case "A.score":
-		return scoreVal(id)
+		return w.scoreVal(id)
 	case "A.b":
 		return one("B", w.aB[id-100])
 	case "A.bs":
@@ -484,9 +488,9 @@ func (e *evaluator) field(typ string, id int64, s *qsel, merged []*qsel, unionSe
 	case "B.cs":
 		return list("C", w.bCs[id-200])
 	case "B.label":
-		return labelVal(id, s.argS)
+		return w.labelVal(id, s.argS)
 	case "C.w":
-		return wVal(id)
+		return w.wVal(id)
 	}
 	panic("reference: unknown field " + logical)
 }
